@@ -32,6 +32,7 @@ type HStep struct {
 	// fund
 	Batches [][]U  `json:"batches,omitempty"`
 	End     string `json:"end,omitempty"`
+	Acts    []Act  `json:"acts,omitempty"` // what the supplier callback does during each call (see Case.Acts)
 	// edits
 	At   int         `json:"at,omitempty"`
 	N    int         `json:"n,omitempty"`
@@ -41,6 +42,7 @@ type HStep struct {
 	Nil  bool        `json:"nil,omitempty"`
 	Data bool        `json:"data,omitempty"`
 	Unit ref.FeeUnit `json:"unit,omitempty"`
+	Tag  int         `json:"tag,omitempty"` // quote: FeeType field of the registered fee object (ref.FeeTag*)
 }
 
 // HistCase is a starting transaction (prior inputs P2PKH-funded), a starting quote, the steps.
@@ -90,8 +92,13 @@ func hStepValid(st HStep) string {
 		for _, b := range st.Batches {
 			n += len(b)
 		}
-		if len(st.Batches) > 8 || n > 40 {
+		if len(st.Batches) > 8 || n > 40 || len(st.Acts) > 10 {
 			return "supplier history too long"
+		}
+		for _, a := range st.Acts {
+			if !actOK(a) {
+				return "callback action outside domain"
+			}
 		}
 	}
 	return ""
@@ -263,13 +270,9 @@ func hLibEdit(tx *bt.Tx, fq *bt.FeeQuote, q ref.FeeQuote, m ref.Tx, st HStep) er
 		(*tx.Outputs[st.At%nout].LockingScript)[st.N] = byte(st.U64)
 	case "quote":
 		if st.Data {
-			fq.AddQuote(bt.FeeTypeData, &bt.Fee{FeeType: bt.FeeTypeData,
-				MiningFee: bt.FeeUnit{Satoshis: st.Unit.Sat, Bytes: st.Unit.Bytes},
-				RelayFee:  bt.FeeUnit{Satoshis: q.DataRelay.Sat, Bytes: q.DataRelay.Bytes}})
+			fq.AddQuote(bt.FeeTypeData, ref.FeeLibFee(bt.FeeTypeData, st.Unit, q.DataRelay, st.Tag))
 		} else {
-			fq.AddQuote(bt.FeeTypeStandard, &bt.Fee{FeeType: bt.FeeTypeStandard,
-				MiningFee: bt.FeeUnit{Satoshis: st.Unit.Sat, Bytes: st.Unit.Bytes},
-				RelayFee:  bt.FeeUnit{Satoshis: q.StdRelay.Sat, Bytes: q.StdRelay.Bytes}})
+			fq.AddQuote(bt.FeeTypeStandard, ref.FeeLibFee(bt.FeeTypeStandard, st.Unit, q.StdRelay, st.Tag))
 		}
 	}
 	return nil
@@ -316,7 +319,7 @@ func checkHistory(ctx *pbt.Ctx, c HistCase) error {
 		return nil
 	}
 	tx := ref.ToLib(m)
-	fq := ref.FeeQuoteToLib(q)
+	fq := ref.FeeQuoteToLibTagged(q)
 	ctx.Labelf("steps=%d", len(c.Steps))
 	nFund := 0
 	prevKind, lastFund := "start", ""
@@ -329,7 +332,7 @@ func checkHistory(ctx *pbt.Ctx, c HistCase) error {
 		switch st.Kind {
 		case "fund":
 			snap := hCopyModel(ref.FromLib(tx))
-			cc := Case{Tx: snap, Quote: q, Batches: st.Batches, End: st.End}
+			cc := Case{Tx: snap, Quote: q, Batches: st.Batches, End: st.End, Acts: st.Acts}
 			funded := true
 			for _, in := range snap.In {
 				if len(in.TxID) != 32 || in.PrevNil || !ref.FeeIsP2PKH(in.PrevScript) {
@@ -384,6 +387,7 @@ func checkHistory(ctx *pbt.Ctx, c HistCase) error {
 			}
 			lastFund = want.class
 			m = hCopyModel(ref.FromLib(tx))
+			q = want.quote // the callback may have updated the quote object
 		case "change": // C10's business; here it only moves the state on
 			a, aerr := bscript.NewAddressFromPublicKeyHash(st.Hash, true)
 			if aerr != nil {
@@ -411,6 +415,11 @@ func checkHistory(ctx *pbt.Ctx, c HistCase) error {
 				sawInPlace = true
 			case "quote":
 				sawQuote = true
+				if st.Tag == ref.FeeTagOther {
+					ctx.Label("quote-step:fee-type-field=other-type")
+				} else if st.Tag == ref.FeeTagEmpty {
+					ctx.Label("quote-step:fee-type-field=empty")
+				}
 			case "query":
 				sawQuery = true
 			}
@@ -492,6 +501,7 @@ func genHEdit(t *rapid.T, m ref.Tx) HStep {
 	case "quote":
 		st.Data = rapid.Bool().Draw(t, "data")
 		st.Unit = genUnit(t, "unit")
+		st.Tag = genFeeTag(t, "tag")
 	case "change":
 		st.Hash = gen.Bytes(t, 20, "chash")
 	}
@@ -502,7 +512,8 @@ func genHistCase(t *rapid.T) HistCase {
 	var c HistCase
 	c.Tx.Version = rapid.SampledFrom([]uint32{1, 2, 0xffffffff}).Draw(t, "version")
 	c.Tx.LockTime = rapid.SampledFrom([]uint32{0, 1, 500000000, 0xffffffff}).Draw(t, "locktime")
-	c.Quote = ref.FeeQuote{Std: genUnit(t, "std"), Data: genUnit(t, "data"), StdRelay: genUnit(t, "stdrelay"), DataRelay: genUnit(t, "datarelay")}
+	c.Quote = ref.FeeQuote{Std: genUnit(t, "std"), Data: genUnit(t, "data"), StdRelay: genUnit(t, "stdrelay"), DataRelay: genUnit(t, "datarelay"),
+		StdTag: genFeeTag(t, "stdtag"), DataTag: genFeeTag(t, "datatag")}
 	nout := rapid.IntRange(0, 3).Draw(t, "nout")
 	for i := 0; i < nout; i++ {
 		s, v := genHOut(t)
@@ -525,8 +536,11 @@ func genHistCase(t *rapid.T) HistCase {
 		c.Steps = append(c.Steps, st)
 		switch st.Kind {
 		case "fund":
-			if r, err := runModel(Case{Tx: m, Quote: q, Batches: st.Batches, End: st.End}); err == nil && (r.class == resOK || r.class == resExhausted || r.class == resSupplierErr) {
-				m = hCopyModel(r.final)
+			if r, err := runModel(Case{Tx: m, Quote: q, Batches: st.Batches, End: st.End, Acts: st.Acts}); err == nil {
+				if r.class == resOK || r.class == resExhausted || r.class == resSupplierErr {
+					m = hCopyModel(r.final)
+				}
+				q = r.quote
 			}
 		case "change":
 			w := hCopyModel(m)
@@ -547,7 +561,7 @@ func genHistCase(t *rapid.T) HistCase {
 	}
 	genFund := func() HStep {
 		st := HStep{Kind: "fund"}
-		st.Batches = genBatches(t, m, q)
+		st.Batches, st.Acts = genBatches(t, m, q)
 		st.End = rapid.SampledFrom([]string{"exhausted", "error", "exhausted-wrapped"}).Draw(t, "end")
 		return st
 	}
